@@ -212,6 +212,19 @@ def _unnegate(tree):
                 and not (len(n.orelse) == 1 and isinstance(n.orelse[0], ast.If)):
             n.test = n.test.operand
             n.body, n.orelse = n.orelse, n.body
+    # ... and so are two-armed ifs (and conditional expressions) on a negative comparison:  if a != b: A else: B  ->  if a == b: B else: A
+    pos = {ast.NotEq: ast.Eq, ast.IsNot: ast.Is, ast.NotIn: ast.In}
+    for n in ast.walk(tree):
+        if isinstance(n, ast.If) and n.orelse and not (len(n.orelse) == 1 and isinstance(n.orelse[0], ast.If)) \
+                and isinstance(n.test, ast.Compare) and len(n.test.ops) == 1 and type(n.test.ops[0]) in pos:
+            n.test.ops = [pos[type(n.test.ops[0])]()]
+            n.body, n.orelse = n.orelse, n.body
+        elif isinstance(n, ast.IfExp) and isinstance(n.test, ast.Compare) and len(n.test.ops) == 1 and type(n.test.ops[0]) in pos:
+            n.test.ops = [pos[type(n.test.ops[0])]()]
+            n.body, n.orelse = n.orelse, n.body
+        elif isinstance(n, ast.IfExp) and isinstance(n.test, ast.UnaryOp) and isinstance(n.test.op, ast.Not):
+            n.test = n.test.operand
+            n.body, n.orelse = n.orelse, n.body
     return tree
 
 
@@ -797,6 +810,34 @@ def _ifelse_to_ifexp(tree):
     return tree
 
 
+def _reverse_then_iterate(fn):
+    """N16: xs.reverse() ; for t in xs: ...   ->   for t in reversed(xs): ...   when xs (a plain local bound once) is not
+    read again, neither in the loop nor after it: the in-place reversal is observable only through this iteration."""
+    loads, stores, declared = _name_counts(fn)
+    for parent in [fn] + [n for n in _own_walk(fn) if not isinstance(n, (ast.FunctionDef, ast.AsyncFunctionDef, ast.ClassDef, ast.Lambda))]:
+        for fld in ('body', 'orelse', 'finalbody'):
+            body = getattr(parent, fld, None)
+            if not (isinstance(body, list) and body and isinstance(body[0], ast.stmt)):
+                continue
+            k = 0
+            while k + 1 < len(body):
+                a, b = body[k], body[k + 1]
+                if isinstance(a, ast.Expr) and isinstance(a.value, ast.Call) and isinstance(a.value.func, ast.Attribute) \
+                        and a.value.func.attr == 'reverse' and not a.value.args and not a.value.keywords \
+                        and isinstance(a.value.func.value, ast.Name) and isinstance(b, ast.For) and isinstance(b.iter, ast.Name) \
+                        and b.iter.id == a.value.func.value.id:
+                    x = b.iter.id
+                    later = sum(_count_loads_in(s_, x) for s_ in body[k + 1:])
+                    # inside an enclosing loop the list must be re-made each time round (bound in this same statement list)
+                    bound_here = any(isinstance(s_, ast.Assign) and any(isinstance(t, ast.Name) and t.id == x for t in s_.targets) for s_ in body[:k])
+                    if x not in declared and stores.get(x, 0) == 1 and later == 1 and bound_here:
+                        b.iter = ast.copy_location(ast.Call(func=ast.Name(id='reversed', ctx=ast.Load()), args=[b.iter], keywords=[]), b.iter)
+                        ast.fix_missing_locations(b.iter)
+                        del body[k]
+                        continue
+                k += 1
+
+
 def normalize(tree, relpath=None):
     _unannotate(tree)
     _split_tuple_assign(tree)
@@ -841,6 +882,7 @@ def normalize(tree, relpath=None):
             _inline_aliases(n, rb)
     for n in ast.walk(tree):
         if isinstance(n, (ast.FunctionDef, ast.AsyncFunctionDef)):
+            _reverse_then_iterate(n)
             _copy_prop(n)
             if not os.environ.get('VERIF_NO_N14'):
                 _propagate_pure(n)
@@ -1006,6 +1048,119 @@ def _guards_to_ifexp(fn):
     return fn
 
 
+def _one_shot(fn):
+    """A helper with several returns, none of them inside a loop, rewritten to a single exit:
+
+        while True:                      # runs once
+            <body, every `return E` spelt `__ret = E; break`>
+        return __ret
+
+    (paths.py follows such a block inline.)  Returns the rewritten copy or None."""
+    if any(isinstance(n, (ast.Yield, ast.YieldFrom)) for n in _own_walk(fn)):
+        return None
+
+    def mk_ret(st):
+        v = st.value if st.value is not None else ast.Constant(value=None)
+        return [ast.copy_location(ast.Assign(targets=[ast.Name(id='__ret', ctx=ast.Store())], value=v), st), ast.copy_location(ast.Break(), st)]
+
+    # a function that ends in `while True:` and leaves it only by `return`: those returns become `__ret = E; break`
+    final = fn.body[-1] if fn.body else None
+    if isinstance(final, ast.While) and isinstance(final.test, ast.Constant) and final.test.value is True and not final.orelse:
+        def own_level(body):
+            """(statements at this loop's own level, does a nested loop contain a return)"""
+            out, bad = [], False
+            for st in body:
+                out.append(st)
+                if isinstance(st, (ast.For, ast.AsyncFor, ast.While)):
+                    bad = bad or any(isinstance(x, ast.Return) for x in ast.walk(st))
+                    continue
+                if isinstance(st, (ast.FunctionDef, ast.AsyncFunctionDef, ast.ClassDef)):
+                    bad = True
+                    continue
+                for fld in ('body', 'orelse', 'finalbody'):
+                    sub = getattr(st, fld, None)
+                    if isinstance(sub, list) and sub and isinstance(sub[0], ast.stmt):
+                        o2, b2 = own_level(sub)
+                        out += o2
+                        bad = bad or b2
+                for h in getattr(st, 'handlers', []) or []:
+                    o2, b2 = own_level(h.body)
+                    out += o2
+                    bad = bad or b2
+            return out, bad
+        lvl, bad = own_level(final.body)
+        if not bad and any(isinstance(x, ast.Return) for x in lvl) and not any(isinstance(x, ast.Break) for x in lvl) \
+                and not any(isinstance(x, ast.Try) and x.finalbody for x in lvl):
+            def conv_loop(body):
+                out = []
+                for st in body:
+                    if isinstance(st, ast.Return):
+                        out += mk_ret(st)
+                        continue
+                    if not isinstance(st, (ast.For, ast.AsyncFor, ast.While)):
+                        for fld in ('body', 'orelse', 'finalbody'):
+                            sub = getattr(st, fld, None)
+                            if isinstance(sub, list) and sub and isinstance(sub[0], ast.stmt):
+                                setattr(st, fld, conv_loop(sub))
+                        for h in getattr(st, 'handlers', []) or []:
+                            h.body = conv_loop(h.body)
+                    out.append(st)
+                return out
+            if not any(isinstance(x, ast.Return) for s_ in fn.body[:-1] for x in ast.walk(s_)):
+                final.body = conv_loop(final.body)
+                fn.body = fn.body + [ast.copy_location(ast.Return(value=ast.Name(id='__ret', ctx=ast.Load())), fn)]
+                ast.fix_missing_locations(fn)
+                return fn
+
+    def ok(body, in_loop):
+        for st in body:
+            if isinstance(st, ast.Return) and in_loop:
+                return False
+            if isinstance(st, (ast.Break, ast.Continue)) and not in_loop:
+                return False
+            if isinstance(st, (ast.FunctionDef, ast.AsyncFunctionDef, ast.ClassDef)):
+                return False
+            if isinstance(st, ast.Try) and st.finalbody and any(isinstance(x, ast.Return) for s_ in st.body + st.finalbody for x in ast.walk(s_)):
+                return False
+            for fld in ('body', 'orelse', 'finalbody'):
+                sub = getattr(st, fld, None)
+                if isinstance(sub, list) and sub and isinstance(sub[0], ast.stmt):
+                    if not ok(sub, in_loop or isinstance(st, (ast.For, ast.AsyncFor, ast.While))):
+                        return False
+            for h in getattr(st, 'handlers', []) or []:
+                if not ok(h.body, in_loop):
+                    return False
+        return True
+    if not ok(fn.body, False):
+        return None
+
+    def conv(body):
+        out = []
+        for st in body:
+            if isinstance(st, ast.Return):
+                v = st.value if st.value is not None else ast.Constant(value=None)
+                out.append(ast.copy_location(ast.Assign(targets=[ast.Name(id='__ret', ctx=ast.Store())], value=v), st))
+                out.append(ast.copy_location(ast.Break(), st))
+                continue
+            if not isinstance(st, (ast.For, ast.AsyncFor, ast.While)):
+                for fld in ('body', 'orelse', 'finalbody'):
+                    sub = getattr(st, fld, None)
+                    if isinstance(sub, list) and sub and isinstance(sub[0], ast.stmt):
+                        setattr(st, fld, conv(sub))
+                for h in getattr(st, 'handlers', []) or []:
+                    h.body = conv(h.body)
+            out.append(st)
+        return out
+    body = conv(fn.body)
+    if not (body and isinstance(body[-1], ast.Break)):
+        body.append(ast.copy_location(ast.Assign(targets=[ast.Name(id='__ret', ctx=ast.Store())], value=ast.Constant(value=None)), fn))
+        body.append(ast.copy_location(ast.Break(), fn))
+    loop = ast.copy_location(ast.While(test=ast.Constant(value=True), body=body, orelse=[]), fn)
+    fn.body = [loop, ast.copy_location(ast.Return(value=ast.Name(id='__ret', ctx=ast.Load())), fn)]
+    ast.fix_missing_locations(fn)
+    return fn
+
+
 def _single_exit(fn):
     rets = [n for n in _own_walk(fn) if isinstance(n, ast.Return)]
     if any(isinstance(n, (ast.Yield, ast.YieldFrom)) for n in _own_walk(fn)):
@@ -1137,6 +1292,8 @@ def _inline_new_helpers(tree, relpath):
                             and isinstance(h_.body[0].value.value, str) and len(h_.body) > 1:
                         h_.body = h_.body[1:]
                     h_ = _guards_to_ifexp(h_)
+                    if not _single_exit(h_):
+                        h_ = _one_shot(h_) or h_
                     if _single_exit(h_):
                         h_._verif_static = 'staticmethod' in decos
                         h_._verif_classm = 'classmethod' in decos
